@@ -87,7 +87,16 @@ var workloads = []workload{
 	{"openvpn-auth-echo", 0, 0, 0},
 	{"tls-sni-a-echo", 1, 0, 0},       // TLS client hello with SNI a.example.com: terminated, echoed
 	{"tls-sni-b-take1-echo", 2, 1, 0}, // SNI b.example.com: terminated, first byte consumed, rest echoed
+	// TLS terminated, then proxied over TLS to an upstream that reports the server name it was shown: every client's own
+	{"tls-sni-c-proxied-over-tls", 5, 0, 0},
+	{"tls-sni-d-proxied-over-tls", 6, 0, 0},
+	{"h2-victim-host-echo", 3, 0, 0}, // HTTP/2 with prior knowledge for victim.example: routed by host, echoed
+	// an HTTP/2 header block that refers to an entry of the dynamic table it never defined: not decodable on its own,
+	// so this connection matches no host and is closed (nothing comes back) - whatever other connections defined
+	{"h2-undefined-table-entry", 4, 0, 0},
 }
+
+var tlsNames = map[byte]string{1: "a.example.com", 2: "b.example.com", 5: "c.example.com", 6: "d.example.com"}
 
 var ovpnDigests = []string{"SHA-1", "SHA-256", "SHA-512", "MD5"}
 
@@ -123,8 +132,13 @@ func buildServer(t hx.TB) (*layer4.Server, func()) {
 		rx.R{Match: sel('M', 1), Handle: []map[string]any{rx.H("subroute", "matching_timeout", "2s", "routes", []rx.R{
 			{Match: []map[string]any{rx.M("verif_need", &rx.Need{N: 2, Pos: 1, Val: 0xFF})}, Handle: []map[string]any{rx.H("verif_term", "id", "NEVER2")}}})}},
 		rx.R{Match: sel('M', 1), Handle: []map[string]any{rx.H("echo")}})
+	routes = append(routes, rx.R{Match: []map[string]any{rx.M("http", []any{map[string]any{"host": []string{"victim.example"}}})}, Handle: []map[string]any{rx.H("echo")}})
 	routes = append(routes, rx.R{Match: []map[string]any{rx.M("openvpn", map[string]any{"modes": []string{"auth"}, "group_key": hex.EncodeToString(mx.OVPNKey.KeyBytes), "ignore_timestamp": true})},
 		Handle: []map[string]any{rx.H("echo")}})
+	tlsUp := serveTLSNamed(t)
+	lns = append(lns, tlsUp)
+	routes = append(routes, rx.R{Match: []map[string]any{rx.M("tls", map[string]any{"sni": []string{"c.example.com", "d.example.com"}})},
+		Handle: []map[string]any{rx.H("tls"), rx.H("proxy", "upstreams", []map[string]any{{"dial": []string{tlsUp.Addr().String()}, "tls": map[string]any{}}})}})
 	// two routes told apart only by the server name in the ClientHello (one shared tls matcher instance each)
 	routes = append(routes,
 		rx.R{Match: []map[string]any{rx.M("tls", map[string]any{"sni": []string{"a.example.com"}})}, Handle: []map[string]any{rx.H("tls"), rx.H("echo")}},
@@ -161,13 +175,21 @@ func (cp connPlan) stream() []byte {
 		pkt := mx.OVPNTCP(mx.OVPNAuth(cp.Tag|1, ad, mx.OVPNKey, 0, 1, uint32(time.Now().Unix()), 0, 0, 0))
 		return pkt // the matcher requires that nothing follows the packet
 	}
+	if w.first == 3 {
+		return mx.H2Prior("GET", "http", "victim.example", fmt.Sprintf("/%x", cp.Tag), [][2]string{{"x-tag", fmt.Sprint(cp.Tag)}}, 1)
+	}
+	if w.first == 4 {
+		// :method GET, :scheme http, :path /, then the indexed field 62, 63 or 64: the first entries of a dynamic table
+		// this connection never filled
+		return mx.H2PriorRawBlock([]byte{0x82, 0x86, 0x84, 0xbe + byte(cp.Tag%3)})
+	}
 	s := hx.Stream(cp.Tag, cp.Size)
 	for i, b := range s {
 		if b >= 'A' && b <= 'M' || b == 0xFF {
 			s[i] = '.'
 		}
 	}
-	if w.first > 2 {
+	if w.first > 6 {
 		s[0] = w.first
 	}
 	return s
@@ -211,9 +233,9 @@ func runBatch(t hx.TB, srv *layer4.Server, ln net.Listener, plans []connPlan) {
 			defer c.Close()
 			results[i].from = time.Now()
 			_ = c.SetDeadline(time.Now().Add(20 * time.Second))
-			if w := workloads[cp.W]; w.first == 1 || w.first == 2 {
+			if w := workloads[cp.W]; w.first == 1 || w.first == 2 || w.first == 5 || w.first == 6 {
 				// a TLS client: the plaintext stream goes through the handshake with the route's server name
-				tc := tls.Client(c, rx.ClientTLS(map[byte]string{1: "a.example.com", 2: "b.example.com"}[w.first], nil))
+				tc := tls.Client(c, rx.ClientTLS(tlsNames[w.first], nil))
 				if err := tc.Handshake(); err != nil {
 					results[i].err = "handshake: " + err.Error()
 					results[i].to = time.Now()
@@ -256,6 +278,12 @@ func runBatch(t hx.TB, srv *layer4.Server, ln net.Listener, plans []connPlan) {
 		if w.first == 0 {
 			want = cp.stream() // timestamps: rebuild would differ; compare with what was sent instead
 			want = nil
+		}
+		if w.first == 4 {
+			want = nil // alone, this connection matches no route and is closed
+		}
+		if w.first == 5 || w.first == 6 {
+			want = append([]byte("SNI="+tlsNames[w.first]+"\n"), want...) // the upstream was shown this client's server name
 		}
 		r := results[i]
 		if w.first == 'L' {
